@@ -1070,6 +1070,23 @@ def _depth_range(T):
     raise ValueError(T)
 
 
+def _branch_depth(T):
+    """(does the depth branch?, minimum depth) as Content::branch_depth documents it"""
+    k = T[0]
+    if k in ("num", "string"):
+        return False, 1
+    if k in ("list", "regular"):
+        b, d = _branch_depth(T[1])
+        return b, d + 1
+    if k == "option":
+        return _branch_depth(T[1])
+    subs = [_branch_depth(t) for t in (T[2] if k == "record" else T[1])]
+    if not subs:
+        return False, 1
+    anybranch = any(b for b, _ in subs) or len({d for _, d in subs}) > 1
+    return anybranch, min(d for _, d in subs)
+
+
 def fam_types(rng):
     """C17: the item type of an array is what its data are (documented type syntax), the type obtained from the form
     equals the type obtained from the array, a range slice has the same type, an element taken out of a list-typed array
@@ -1101,6 +1118,16 @@ def fam_types(rng):
             return ("value", "range slice [%r:%r] has type `%s`, the array has `%s`" % (a, b, tsl, ta))
         if (mn, mx) != (dmin, dmax):
             return ("value", "minmax_depth reports %r for %r, the value has %r" % ((mn, mx), vals, (dmin, dmax)))
+        try:
+            b1, d1, b2, d2, fmn, fmx, fpd = [int(x) for x in r.extra.split()]
+        except ValueError:
+            return ("value", "depth queries not reported: %r" % r.extra)
+        wb, wd = _branch_depth(T)
+        if (bool(b1), d1) != (wb, wd):
+            return ("value", "branch_depth reports %r for element type %r, the value has %r" % ((bool(b1), d1), T, (wb, wd)))
+        if (b2, d2) != (b1, d1) or (fmn, fmx) != (mn, mx) or fpd != depth:
+            return ("value", "the form answers depth queries differently from the array: branch %r vs %r, minmax %r vs %r, purelist_depth %r vs %r"
+                    % ((b2, d2), (b1, d1), (fmn, fmx), (mn, mx), fpd, depth))
         t0 = inner_type(T)
         if n > 0 and vals[0] is not None and t0[0] in ("list", "regular") and isinstance(elem, str) and elem not in ("missing", "record", "scalar"):
             if elem != ref_type(t0[1]):
